@@ -145,8 +145,15 @@ def _conds(tier, seed):
                         continue
                     if law == 'filter_select' and backing == 'dict':
                         continue
-                    if prefix == 'cat' and n > 1 and tier == 'quick':
-                        continue
+                    if law == 'map_idx' and m == 0:
+                        continue              # no valid index entry exists
+                    if tier == 'quick':
+                        if prefix == 'cat' and (n > 1 or law in ('map_slice', 'map_idx', 'map_sort', 'filter_select', 'map_shuffle')):
+                            continue          # n + 3 examples under a symbolic selection / ordering: thorough tier
+                        if law == 'filter_select' and n > 2:
+                            continue
+                        if law in ('map_slice', 'map_idx') and n > 2 and prefix == 'rev':
+                            continue
                     out.append((law, param, backing, n, prefix))
     return out
 
